@@ -301,6 +301,7 @@ class CounterToken(Token, FileSystemEventHandler):
                         tokenfile = TokenFile(path)
                         tokenfile.watch()
                         self.cache[path.name] = tokenfile
+                        self.available -= tokenfile.count
         except (FileNotFoundError, ValueError):
             # The token file is gone, or it has been created but not written
             # yet (on_modified will pick it up after the write): just ignore
@@ -352,6 +353,7 @@ class CounterToken(Token, FileSystemEventHandler):
                             tokenfile = TokenFile(path)
                             tokenfile.watch()
                             self.cache[path.name] = tokenfile
+                            self.available -= tokenfile.count
                         except (FileNotFoundError, ValueError):
                             # Well, the file did not exist anymore, or is
                             # not written yet...
